@@ -1347,6 +1347,23 @@ theorem skip_absent_iff (c : Cons) (filter : σ → Tag → Bool → Nat → Opt
                 exact (ok_none_iff _ _ _ _ _ _).mpr ⟨h, rfl⟩
               · simp [if_neg hcond] at h
 
+/-- the forward direction needs no fuel assumption -/
+theorem skip_absent_inv (c : Cons) (filter : σ → Tag → Bool → Nat → Option σ) (st : σ) (g : G0)
+    (hf : g.frames = []) (N : Nat) (c' : Cons) (st' : σ) (g' : G0)
+    (h : runG0 (skipOpt c filter st N) g = .ok ((none, c', st'), g')) : absentF c g = some (c', g') ∧ st' = st := by
+  cases N with
+  | succ N0 => exact (skip_absent_iff c filter st g hf (N0 + 1) (by omega) c' st' g').mp h
+  | zero =>
+    rw [run_skipOpt] at h
+    unfold absentF
+    by_cases h1 : c.state = .done
+    · simp only [if_pos h1] at h ⊢; exact (ok_none_iff _ _ _ _ _ _).mp h
+    · by_cases h2 : c.state = .definite ∧ g.limit = none
+      · rw [if_neg h1, if_pos h2] at h; cases h
+      · by_cases h3 : c.state = .definite ∧ g.limit = some 0
+        · simp only [if_neg h1, if_neg h2, if_pos h3] at h ⊢; exact (ok_none_iff _ _ _ _ _ _).mp h
+        · rw [if_neg h1, if_neg h2, if_neg h3] at h; cases h
+
 /-- corollary in terms of the model's reader: absence from `skip_opt` ⇔ absence from the optional
     generic read `take_opt_value`, whatever its closure; same resulting state and source -/
 theorem skip_absent_iff_read {α : Type} (c : Cons) (filter : σ → Tag → Bool → Nat → Option σ) (st : σ) (g : G0)
@@ -1461,5 +1478,570 @@ theorem skipOne_iff_read (c : Cons) (g : G0) (hf : g.frames = []) (c' : Cons) (g
       obtain ⟨⟨_, hc⟩, hg⟩ := hv
       refine ⟨hdrs t', ?_⟩
       rw [skipOne_value c g hf h1 h2 f t' rest hp _ (Nat.le_refl _), hc, hg]
+
+
+/-! ### `skip_all` -/
+
+theorem run_skipAll_succ (c : Cons) (N : Nat) (g : G0) :
+    runG0 (skipAll c (N + 1)) g =
+      match runG0 (skipOne c N) g with
+      | .ok ((some (), c'), g') => runG0 (skipAll c' N) g'
+      | .ok ((none, c'), g') => .ok (c', g')
+      | .error e => .error e := by
+  rw [skipAll]
+  simp only [runG0_bind]
+  cases runG0 (skipOne c N) g with
+  | error e => rfl
+  | ok x =>
+    obtain ⟨⟨r, c'⟩, g'⟩ := x
+    cases r with
+    | none => rfl
+    | some u => rfl
+
+theorem skipOne_absent (c : Cons) (g : G0) (hf : g.frames = []) (N : Nat) (hN : 1 ≤ N) (c' : Cons) (g' : G0)
+    (h : absentF c g = some (c', g')) : runG0 (skipOne c N) g = .ok ((none, c'), g') := by
+  rw [run_skipOne, (skip_absent_iff c acceptAll () g hf N hN c' () g').mpr ⟨h, rfl⟩]
+
+/-- what the grammar says about the remaining content of a `Constructed`, and where reading or
+    skipping all of it leaves state and source:
+    definite — the `l` octets up to the limit are a sequence of values (and are all there);
+    indefinite — values followed by end-of-contents, state becomes done;
+    top level — everything in view is a sequence of values;  done — nothing to do. -/
+def specAll (c : Cons) (f : Nat) (g : G0) : Option ((List Tree × Cons) × G0) :=
+  match c.state with
+  | .definite =>
+    match g.limit with
+    | some l =>
+      if l ≤ g.data.length then
+        (parseAll (toM c.mode) f g.view).map fun ts => ((ts, c), ⟨g.data.drop l, some 0, []⟩)
+      else none
+    | none => none
+  | .indefinite =>
+    (parseUntilEoc (toM c.mode) f g.view).map fun p =>
+      ((p.1, { c with state := .done }), g.adv (g.view.length - p.2.length))
+  | .unbounded => (parseAll (toM c.mode) f g.view).map fun ts => ((ts, c), g.adv g.view.length)
+  | .done => some (([], c), g)
+
+theorem view_empty_limit (g : G0) (l : Nat) (hl : g.limit = some l) (hle : l ≤ g.data.length)
+    (hemp : g.view.isEmpty = true) : l = 0 := by
+  have h1 := view_len g
+  rw [hl] at h1
+  have h2 : g.view.length = 0 := by
+    cases hv : g.view with
+    | nil => rfl
+    | cons b r => rw [hv] at hemp; simp at hemp
+  simp only at h1
+  omega
+
+theorem skipAll_def : ∀ (f : Nat) (m : Mode) (g : G0) (l N : Nat) (ts : List Tree), g.frames = [] →
+    g.limit = some l → l ≤ g.data.length → parseAll (toM m) f g.view = some ts → hdrsL ts + 2 ≤ N →
+    runG0 (skipAll ⟨.definite, m⟩ N) g = .ok (⟨.definite, m⟩, ⟨g.data.drop l, some 0, []⟩) := by
+  intro f
+  induction f with
+  | zero => intro m g l N ts _ _ _ hp; simp [parseAll] at hp
+  | succ f ih =>
+    intro m g l N ts hf hl hle hp hN
+    obtain ⟨N0, rfl⟩ : ∃ N0, N = N0 + 1 := ⟨N - 1, by omega⟩
+    rw [run_skipAll_succ]
+    simp only [parseAll] at hp
+    by_cases hemp : g.view.isEmpty = true
+    · have hl0 := view_empty_limit g l hl hle hemp
+      subst hl0
+      have hab : absentF ⟨.definite, m⟩ g = some (⟨.definite, m⟩, g) := by
+        unfold absentF; simp [hl]
+      rw [skipOne_absent _ g hf N0 (by omega) _ _ hab]
+      simp only
+      have : g = ⟨g.data.drop 0, some 0, []⟩ := by
+        cases g with
+        | mk d l fr => simp at hf hl; subst hf; subst hl; rfl
+      rw [← this]
+    · simp only [hemp, Bool.false_eq_true, if_false] at hp
+      cases hpv : parseValue (toM m) f g.view with
+      | none => simp [hpv] at hp
+      | some r =>
+        obtain ⟨t, rest1⟩ := r
+        simp only [hpv] at hp
+        cases hpa : parseAll (toM m) f rest1 with
+        | none => simp [hpa] at hp
+        | some ts' =>
+          simp only [hpa, Option.map, Option.some.injEq] at hp
+          subst hp
+          simp only [hdrsL] at hN
+          have hpos := hdrs_pos t
+          obtain ⟨n1, hn1, hr1⟩ := (suffix_lemma (toM m) f).1 _ _ _ hpv
+          have hlen : g.view.length - rest1.length = n1 := by
+            rw [hr1, List.length_drop]; omega
+          rw [skipOne_value ⟨.definite, m⟩ g hf (by simp) (by simp [hl]) f t rest1 hpv N0 (by omega), hlen]
+          simp only
+          have hvl := view_le_limit g l hl
+          have hvn : (g.adv n1).view = rest1 := by rw [G0.adv_view g n1 hn1, hr1]
+          rw [ih m (g.adv n1) (l - n1) N0 ts' rfl (by show g.limit.map (· - n1) = some (l - n1); rw [hl]; rfl)
+            (by show l - n1 ≤ (g.data.drop n1).length; rw [List.length_drop]; omega)
+            (by rw [hvn]; exact hpa) (by omega)]
+          have hd : (g.adv n1).data.drop (l - n1) = g.data.drop l := by
+            show (g.data.drop n1).drop (l - n1) = g.data.drop l
+            rw [List.drop_drop]; congr 1; omega
+          rw [hd]
+
+theorem skipAll_top : ∀ (f : Nat) (m : Mode) (g : G0) (N : Nat) (ts : List Tree), g.frames = [] →
+    parseAll (toM m) f g.view = some ts → hdrsL ts + 2 ≤ N →
+    runG0 (skipAll ⟨.unbounded, m⟩ N) g = .ok (⟨.unbounded, m⟩, g.adv g.view.length) := by
+  intro f
+  induction f with
+  | zero => intro m g N ts _ hp; simp [parseAll] at hp
+  | succ f ih =>
+    intro m g N ts hf hp hN
+    obtain ⟨N0, rfl⟩ : ∃ N0, N = N0 + 1 := ⟨N - 1, by omega⟩
+    rw [run_skipAll_succ]
+    simp only [parseAll] at hp
+    by_cases hemp : g.view.isEmpty = true
+    · have hv : g.view = [] := by
+        cases hv : g.view with
+        | nil => rfl
+        | cons b r => rw [hv] at hemp; simp at hemp
+      have hab : absentF ⟨.unbounded, m⟩ g = some (⟨.unbounded, m⟩, g) := by
+        unfold absentF; simp [hv]
+      rw [skipOne_absent _ g hf N0 (by omega) _ _ hab]
+      simp only [hv, List.length_nil, g.adv_zero hf]
+    · simp only [hemp, Bool.false_eq_true, if_false] at hp
+      cases hpv : parseValue (toM m) f g.view with
+      | none => simp [hpv] at hp
+      | some r =>
+        obtain ⟨t, rest1⟩ := r
+        simp only [hpv] at hp
+        cases hpa : parseAll (toM m) f rest1 with
+        | none => simp [hpa] at hp
+        | some ts' =>
+          simp only [hpa, Option.map, Option.some.injEq] at hp
+          subst hp
+          simp only [hdrsL] at hN
+          have hpos := hdrs_pos t
+          obtain ⟨n1, hn1, hr1⟩ := (suffix_lemma (toM m) f).1 _ _ _ hpv
+          have hlen : g.view.length - rest1.length = n1 := by
+            rw [hr1, List.length_drop]; omega
+          rw [skipOne_value ⟨.unbounded, m⟩ g hf (by simp) (by simp) f t rest1 hpv N0 (by omega), hlen]
+          simp only
+          have hvn : (g.adv n1).view = rest1 := by rw [G0.adv_view g n1 hn1, hr1]
+          rw [ih m (g.adv n1) N0 ts' rfl (by rw [hvn]; exact hpa) (by omega), G0.adv_adv, hvn, hr1,
+            List.length_drop]
+          have : n1 + (g.view.length - n1) = g.view.length := by omega
+          rw [this]
+
+theorem skipAll_indef : ∀ (f : Nat) (m : Mode) (g : G0) (N : Nat) (ts : List Tree) (rest : Bytes), g.frames = [] →
+    parseUntilEoc (toM m) f g.view = some (ts, rest) → hdrsL ts + 2 ≤ N →
+    runG0 (skipAll ⟨.indefinite, m⟩ N) g = .ok (⟨.done, m⟩, g.adv (g.view.length - rest.length)) := by
+  intro f
+  induction f with
+  | zero => intro m g N ts rest _ hp; simp [parseUntilEoc] at hp
+  | succ f ih =>
+    intro m g N ts rest hf hp hN
+    obtain ⟨N0, rfl⟩ : ∃ N0, N = N0 + 1 := ⟨N - 1, by omega⟩
+    rw [run_skipAll_succ]
+    simp only [parseUntilEoc] at hp
+    cases hri : readIdent g.view with
+    | none => simp [hri] at hp
+    | some r =>
+      obtain ⟨id, k⟩ := r
+      simp only [hri] at hp
+      by_cases he : isEocIdent id = true
+      · simp only [he, if_true] at hp
+        by_cases hcn : id.constructed = true
+        · simp [hcn] at hp
+        · simp only [hcn, Bool.false_eq_true, if_false] at hp
+          cases hrl : readLen (toM m).isBer (g.view.drop k) with
+          | none => simp [hrl] at hp
+          | some r2 =>
+            obtain ⟨len?, kl⟩ := r2
+            rw [hrl] at hp
+            obtain ⟨hH, hv2, hsum, hk1⟩ := headerF_of m g id k len? kl hri hrl
+            cases len? with
+            | none => simp at hp
+            | some n =>
+              cases n with
+              | succ n' => simp at hp
+              | zero =>
+                simp only [Option.some.injEq, Prod.mk.injEq] at hp
+                obtain ⟨hk, hrest⟩ := hp
+                subst hk; subst hrest
+                have hvne := view_nonempty_of_ident _ _ _ hri
+                have hab : absentF ⟨.indefinite, m⟩ g = some (⟨.done, m⟩, g.adv (k + kl)) := by
+                  unfold absentF
+                  simp [hH, he, hcn]
+                rw [skipOne_absent _ g hf N0 (by omega) _ _ hab]
+                simp only [List.length_drop]
+                have : g.view.length - (g.view.length - (k + kl)) = k + kl := by omega
+                rw [this]
+      · have he' : isEocIdent id = false := by simpa using he
+        simp only [he', Bool.false_eq_true, if_false] at hp
+        cases hpv : parseValue (toM m) f g.view with
+        | none => simp [hpv] at hp
+        | some r =>
+          obtain ⟨t, rest1⟩ := r
+          simp only [hpv] at hp
+          cases hpe : parseUntilEoc (toM m) f rest1 with
+          | none => simp [hpe] at hp
+          | some r3 =>
+            obtain ⟨ts', rest'⟩ := r3
+            simp only [hpe, Option.some.injEq, Prod.mk.injEq] at hp
+            obtain ⟨hk, hrest⟩ := hp
+            subst hk; subst hrest
+            simp only [hdrsL] at hN
+            have hpos := hdrs_pos t
+            obtain ⟨n1, hn1, hr1⟩ := (suffix_lemma (toM m) f).1 _ _ _ hpv
+            obtain ⟨n2, hn2, hr2⟩ := (suffix_lemma (toM m) f).2 _ _ _ hpe
+            have hlen : g.view.length - rest1.length = n1 := by
+              rw [hr1, List.length_drop]; omega
+            rw [skipOne_value ⟨.indefinite, m⟩ g hf (by simp) (by simp) f t rest1 hpv N0 (by omega), hlen]
+            simp only
+            have hvn : (g.adv n1).view = rest1 := by rw [G0.adv_view g n1 hn1, hr1]
+            rw [ih m (g.adv n1) N0 ts' rest' rfl (by rw [hvn]; exact hpe) (by omega), G0.adv_adv, hvn]
+            have e : n1 + (rest1.length - rest'.length) = g.view.length - rest'.length := by
+              rw [hr2, hr1] at *
+              simp only [List.length_drop] at *
+              omega
+            rw [e]
+
+/-- **`skip_all` ends cleanly at the end of definite, indefinite and top-level content alike**:
+    whenever the grammar accepts the remaining content of the `Constructed` as the trees `ts`
+    (`specAll`), `skip_all` (with fuel for the headers of `ts` plus the final look) returns the state
+    and leaves the source exactly where the grammar ends — the end of the definite content (limit 0),
+    behind the end-of-contents octets (state done), or the end of the view. -/
+theorem skipAll_spec (c : Cons) (f : Nat) (g : G0) (hf : g.frames = []) (ts : List Tree) (c' : Cons) (g' : G0)
+    (h : specAll c f g = some ((ts, c'), g')) (N : Nat) (hN : hdrsL ts + 2 ≤ N) :
+    runG0 (skipAll c N) g = .ok (c', g') := by
+  obtain ⟨s, m⟩ := c
+  unfold specAll at h
+  cases s with
+  | definite =>
+    simp only at h
+    cases hl : g.limit with
+    | none => simp [hl] at h
+    | some l =>
+      simp only [hl] at h
+      by_cases hle : l ≤ g.data.length
+      · simp only [hle, if_true] at h
+        cases hp : parseAll (toM m) f g.view with
+        | none => simp [hp] at h
+        | some ts' =>
+          simp only [hp, Option.map, Option.some.injEq, Prod.mk.injEq] at h
+          obtain ⟨⟨h1, h2⟩, h3⟩ := h
+          subst h1; subst h2; subst h3
+          exact skipAll_def f m g l N ts' hf hl hle hp hN
+      · simp [hle] at h
+  | indefinite =>
+    simp only at h
+    cases hp : parseUntilEoc (toM m) f g.view with
+    | none => simp [hp] at h
+    | some r =>
+      obtain ⟨ts', rest⟩ := r
+      simp only [hp, Option.map, Option.some.injEq, Prod.mk.injEq] at h
+      obtain ⟨⟨h1, h2⟩, h3⟩ := h
+      subst h1; subst h2; subst h3
+      exact skipAll_indef f m g N ts' rest hf hp hN
+  | unbounded =>
+    simp only at h
+    cases hp : parseAll (toM m) f g.view with
+    | none => simp [hp] at h
+    | some ts' =>
+      simp only [hp, Option.map, Option.some.injEq, Prod.mk.injEq] at h
+      obtain ⟨⟨h1, h2⟩, h3⟩ := h
+      subst h1; subst h2; subst h3
+      exact skipAll_top f m g N ts' hf hp hN
+  | done =>
+    simp only [Option.some.injEq, Prod.mk.injEq] at h
+    obtain ⟨⟨h1, h2⟩, h3⟩ := h
+    subst h1; subst h2; subst h3
+    obtain ⟨N0, rfl⟩ : ∃ N0, N = N0 + 1 := ⟨N - 1, by omega⟩
+    rw [run_skipAll_succ, skipOne_absent ⟨.done, m⟩ g hf N0 (by omega) ⟨.done, m⟩ g (by simp [absentF])]
+
+
+/-! ### `skip_all`, converse -/
+
+theorem headerF_inv (m : Mode) (g : G0) (id : Ident) (len? : Option Nat) (g2 : G0)
+    (h : headerF m g = some ((id, len?), g2)) :
+    ∃ k kl, readIdent g.view = some (id, k) ∧ readLen (toM m).isBer (g.view.drop k) = some (len?, kl) ∧
+      g2 = g.adv (k + kl) ∧ k + kl ≤ g.view.length := by
+  unfold headerF at h
+  cases hr : readIdent g.view with
+  | none => simp [hr] at h
+  | some r =>
+    obtain ⟨id', k⟩ := r
+    obtain ⟨_, _, hk1, hk, _⟩ := C12.readIdent_bounds _ _ _ hr
+    have hv1 : (g.adv k).view = g.view.drop k := G0.adv_view g k hk
+    simp only [hr, hv1] at h
+    cases hl : readLen m.isBer (g.view.drop k) with
+    | none => simp [hl] at h
+    | some r2 =>
+      obtain ⟨l2, kl⟩ := r2
+      obtain ⟨_, hkl⟩ := readLen_bound _ _ _ _ hl
+      simp only [List.length_drop] at hkl
+      simp only [hl, Option.some.injEq, Prod.mk.injEq] at h
+      obtain ⟨⟨h1, h2⟩, h3⟩ := h
+      subst h1; subst h2
+      refine ⟨k, kl, rfl, by rw [toM_isBer]; exact hl, ?_, by omega⟩
+      rw [← h3, G0.adv_adv]
+
+theorem absent_specAll (c : Cons) (g : G0) (hf : g.frames = []) (c' : Cons) (g' : G0)
+    (h : absentF c g = some (c', g')) : specAll c 1 g = some (([], c'), g') := by
+  unfold absentF at h
+  by_cases h1 : c.state = .done
+  · simp only [if_pos h1, Option.some.injEq, Prod.mk.injEq] at h
+    obtain ⟨rfl, rfl⟩ := h
+    simp [specAll, h1]
+  · by_cases h2 : c.state = .definite ∧ g.limit = none
+    · rw [if_neg h1, if_pos h2] at h; cases h
+    · by_cases h3 : c.state = .definite ∧ g.limit = some 0
+      · simp only [if_neg h1, if_neg h2, if_pos h3, Option.some.injEq, Prod.mk.injEq] at h
+        obtain ⟨rfl, rfl⟩ := h
+        have hv : g.view = [] := by simp [G0.view, h3.2]
+        have hg : g = ⟨g.data.drop 0, some 0, []⟩ := by
+          cases g with
+          | mk d l fr => simp at hf; subst hf; have := h3.2; simp at this; subst this; rfl
+        simp only [specAll, h3.1, h3.2, Nat.zero_le, if_true, hv, parseAll, List.isEmpty_nil, Option.map]
+        rw [← hg]
+      · by_cases h4 : c.state = .unbounded ∧ g.view = []
+        · simp only [if_neg h1, if_neg h2, if_neg h3, if_pos h4, Option.some.injEq, Prod.mk.injEq] at h
+          obtain ⟨rfl, rfl⟩ := h
+          simp only [specAll, h4.1, h4.2, parseAll, List.isEmpty_nil, if_true, Option.map, List.length_nil,
+            g.adv_zero hf]
+        · simp only [if_neg h1, if_neg h2, if_neg h3, if_neg h4] at h
+          cases hH : headerF c.mode g with
+          | none => simp [hH] at h
+          | some r =>
+            obtain ⟨⟨id, len?⟩, g2⟩ := r
+            simp only [hH] at h
+            by_cases hcond : isEocIdent id = true ∧ c.state = .indefinite ∧ id.constructed = false ∧ len? = some 0
+            · simp only [if_pos hcond, Option.some.injEq, Prod.mk.injEq] at h
+              obtain ⟨rfl, rfl⟩ := h
+              obtain ⟨he, hi, hcn, hz⟩ := hcond
+              subst hz
+              obtain ⟨k, kl, hri, hrl, hg2, hsum⟩ := headerF_inv _ _ _ _ _ hH
+              simp only [specAll, hi, parseUntilEoc, hri, he, if_true, hcn, Bool.false_eq_true, if_false, hrl,
+                Option.map, List.length_drop, hg2]
+              have : g.view.length - (g.view.length - (k + kl)) = k + kl := by omega
+              rw [this]
+            · simp [if_neg hcond] at h
+
+theorem specAll_cons (c : Cons) (g : G0) (f f2 : Nat) (t : Tree) (rest : Bytes) (ts2 : List Tree)
+    (c' : Cons) (g' : G0) (h1 : c.state ≠ .done)
+    (hp : parseValue (toM c.mode) f g.view = some (t, rest))
+    (h : specAll c f2 (g.adv (g.view.length - rest.length)) = some ((ts2, c'), g')) :
+    specAll c (max f f2 + 1) g = some ((t :: ts2, c'), g') := by
+  obtain ⟨n1, hn1, hr1⟩ := (suffix_lemma (toM c.mode) f).1 _ _ _ hp
+  have hlen : g.view.length - rest.length = n1 := by
+    rw [hr1, List.length_drop]; omega
+  rw [hlen] at h
+  have hvn : (g.adv n1).view = rest := by rw [G0.adv_view g n1 hn1, hr1]
+  obtain ⟨id, k, hri, he⟩ := parseValue_ident _ _ _ _ hp
+  have hvne : g.view.isEmpty = false := by
+    cases hv : g.view with
+    | nil => rw [hv] at hri; simp [readIdent] at hri
+    | cons b r => rfl
+  have hpv' := parseValue_mono _ f (max f f2) (Nat.le_max_left _ _) _ _ hp
+  obtain ⟨s, m⟩ := c
+  unfold specAll at h ⊢
+  cases s with
+  | done => exact absurd rfl h1
+  | definite =>
+    simp only at h ⊢ hp hpv'
+    cases hl : g.limit with
+    | none =>
+      have : (g.adv n1).limit = none := by show g.limit.map (· - n1) = none; rw [hl]; rfl
+      simp [this] at h
+    | some l =>
+      have hl1 : (g.adv n1).limit = some (l - n1) := by show g.limit.map (· - n1) = some (l - n1); rw [hl]; rfl
+      have hvl := view_le_limit g l hl
+      have hvd := g.view_length_le
+      simp only [hl1, hvn] at h
+      have hdl : (g.adv n1).data.length = g.data.length - n1 := by
+        show (g.data.drop n1).length = _; rw [List.length_drop]
+      by_cases hle : l - n1 ≤ (g.adv n1).data.length
+      · simp only [hle, if_true] at h
+        cases hpa : parseAll (toM m) f2 rest with
+        | none => simp [hpa] at h
+        | some ts2' =>
+          simp only [hpa, Option.map, Option.some.injEq, Prod.mk.injEq] at h
+          obtain ⟨⟨h1', h2'⟩, h3'⟩ := h
+          subst h1'; subst h2'; subst h3'
+          have hle' : l ≤ g.data.length := by omega
+          have hd : (g.adv n1).data.drop (l - n1) = g.data.drop l := by
+            show (g.data.drop n1).drop (l - n1) = g.data.drop l
+            rw [List.drop_drop]; congr 1; omega
+          rw [parseAll]
+          simp only [hle', if_true, hvne, Bool.false_eq_true, if_false, hpv',
+            parseAll_mono _ f2 (max f f2) (Nat.le_max_right _ _) _ _ hpa, Option.map, hd]
+      · simp [hle] at h
+  | indefinite =>
+    simp only [hvn] at h ⊢ hp hpv'
+    cases hpe : parseUntilEoc (toM m) f2 rest with
+    | none => simp [hpe] at h
+    | some r =>
+      obtain ⟨ts2', rest2⟩ := r
+      obtain ⟨n2, hn2, hr2⟩ := (suffix_lemma (toM m) f2).2 _ _ _ hpe
+      simp only [hpe, Option.map, Option.some.injEq, Prod.mk.injEq] at h
+      obtain ⟨⟨h1', h2'⟩, h3'⟩ := h
+      subst h1'; subst h2'; subst h3'
+      rw [parseUntilEoc]
+      simp only [hri, he, Bool.false_eq_true, if_false, hpv',
+        parseUntilEoc_mono _ f2 (max f f2) (Nat.le_max_right _ _) _ _ hpe, Option.map, G0.adv_adv]
+      have e : n1 + (rest.length - rest2.length) = g.view.length - rest2.length := by
+        rw [hr2, hr1] at *
+        simp only [List.length_drop] at *
+        omega
+      rw [e]
+  | unbounded =>
+    simp only [hvn] at h ⊢ hp hpv'
+    cases hpa : parseAll (toM m) f2 rest with
+    | none => simp [hpa] at h
+    | some ts2' =>
+      simp only [hpa, Option.map, Option.some.injEq, Prod.mk.injEq] at h
+      obtain ⟨⟨h1', h2'⟩, h3'⟩ := h
+      subst h1'; subst h2'; subst h3'
+      rw [parseAll]
+      simp only [hvne, Bool.false_eq_true, if_false, hpv',
+        parseAll_mono _ f2 (max f f2) (Nat.le_max_right _ _) _ _ hpa, Option.map, G0.adv_adv]
+      have e : n1 + rest.length = g.view.length := by
+        rw [hr1, List.length_drop]; omega
+      rw [e]
+
+/-- **Converse for `skip_all`**: whenever it returns, the grammar accepts the remaining content and
+    state and source are where the grammar ends. -/
+theorem skipAll_inv : ∀ (N : Nat) (c : Cons) (g : G0) (c' : Cons) (g' : G0), g.frames = [] →
+    runG0 (skipAll c N) g = .ok (c', g') → ∃ f ts, specAll c f g = some ((ts, c'), g') := by
+  intro N
+  induction N with
+  | zero => intro c g c' g' _ h; cases h
+  | succ N ih =>
+    intro c g c' g' hf h
+    rw [run_skipAll_succ, run_skipOne] at h
+    cases hs : runG0 (skipOpt c acceptAll () N) g with
+    | error e => rw [hs] at h; cases h
+    | ok x =>
+      obtain ⟨⟨r, c1, u⟩, g1⟩ := x
+      rw [hs] at h
+      simp only at h
+      cases r with
+      | none =>
+        simp only [Except.ok.injEq, Prod.mk.injEq] at h
+        obtain ⟨rfl, rfl⟩ := h
+        obtain ⟨hab, _⟩ := skip_absent_inv c acceptAll () g hf N c1 u g1 hs
+        exact ⟨1, [], absent_specAll c g hf c1 g1 hab⟩
+      | some u' =>
+        simp only at h
+        obtain ⟨f, t, rest, hp, _, hc, hg, _, h1, h2⟩ := skip_value_inv c acceptAll () g hf N c1 u g1 hs
+        subst hc; subst hg
+        obtain ⟨f2, ts2, hsp⟩ := ih c1 _ c' g' rfl h
+        exact ⟨max f f2 + 1, t :: ts2, specAll_cons c1 g f f2 t rest ts2 c' g' h1 hp hsp⟩
+
+/-- `skip_all` returns exactly when the grammar accepts the remaining content, and then with the
+    grammar's final state and position -/
+theorem skipAll_iff (c : Cons) (g : G0) (hf : g.frames = []) (c' : Cons) (g' : G0) :
+    (∃ N, runG0 (skipAll c N) g = .ok (c', g')) ↔ (∃ f ts, specAll c f g = some ((ts, c'), g')) := by
+  constructor
+  · rintro ⟨N, h⟩; exact skipAll_inv N c g c' g' hf h
+  · rintro ⟨f, ts, h⟩; exact ⟨hdrsL ts + 2, skipAll_spec c f g hf ts c' g' h _ (Nat.le_refl _)⟩
+
+
+/-! ### `skip_all` against the generic reader of the model (via C02) -/
+
+/-- C02's refinement theorem in the vocabulary of `specAll` (same coverage as C02: a definite
+    `Constructed` sits on a limited source, the top level on an unlimited one) -/
+theorem readAll_specAll (c : Cons) (g : G0) (hf : g.frames = []) (hd : c.state = .definite → g.limit ≠ none)
+    (hu : c.state = .unbounded → g.limit = none) (hdone : c.state ≠ .done) (f : Nat) :
+    Rel0 (runG0 (readAll f c) g) (specAll c f g) := by
+  obtain ⟨s, m⟩ := c
+  cases g with
+  | mk d l fr =>
+    simp only at hf; subst hf
+    cases s with
+    | done => exact absurd rfl hdone
+    | definite =>
+      cases l with
+      | none => exact absurd rfl (hd rfl)
+      | some l => exact (refines f).1 m d l
+    | indefinite => exact (refines f).2.1 m ⟨d, l, []⟩ rfl
+    | unbounded =>
+      have hl : l = none := hu rfl
+      subst hl
+      have hu' := (refines f).2.2.1 m d
+      have e : (St d none).adv (St d none).view.length = St [] none := by
+        simp [G0.adv, G0.view]
+      unfold specU at hu'
+      unfold specAll
+      simp only [e]
+      exact hu'
+
+/-- **`skip_all` returns exactly when the generic read of all remaining values returns, with the same
+    `Constructed` state and the same source** — in a definite value, an indefinite value and at top
+    level. -/
+theorem skipAll_iff_readAll (c : Cons) (g : G0) (hf : g.frames = []) (hd : c.state = .definite → g.limit ≠ none)
+    (hu : c.state = .unbounded → g.limit = none) (hdone : c.state ≠ .done) (c' : Cons) (g' : G0) :
+    (∃ N, runG0 (skipAll c N) g = .ok (c', g')) ↔ (∃ f ts, runG0 (readAll f c) g = .ok ((ts, c'), g')) := by
+  rw [skipAll_iff c g hf]
+  constructor
+  · rintro ⟨f, ts, h⟩
+    have hr := readAll_specAll c g hf hd hu hdone f
+    rw [h, rel0_some] at hr
+    exact ⟨f, ts, hr⟩
+  · rintro ⟨f, ts, h⟩
+    have hr := readAll_specAll c g hf hd hu hdone f
+    rw [h] at hr
+    cases hsp : specAll c f g with
+    | none => rw [hsp] at hr; simp [Rel0] at hr
+    | some y =>
+      rw [hsp] at hr
+      simp only [Rel0] at hr
+      exact ⟨f, ts, by rw [hsp, hr]⟩
+
+/-- … and the fuel `skip_all` needs is one unit per header read plus two -/
+theorem skipAll_where_readAll (c : Cons) (g : G0) (hf : g.frames = []) (hd : c.state = .definite → g.limit ≠ none)
+    (hu : c.state = .unbounded → g.limit = none) (hdone : c.state ≠ .done) (f : Nat) (ts : List Tree)
+    (c' : Cons) (g' : G0) (h : runG0 (readAll f c) g = .ok ((ts, c'), g')) (N : Nat) (hN : hdrsL ts + 2 ≤ N) :
+    runG0 (skipAll c N) g = .ok (c', g') := by
+  have hr := readAll_specAll c g hf hd hu hdone f
+  rw [h] at hr
+  cases hsp : specAll c f g with
+  | none => rw [hsp] at hr; simp [Rel0] at hr
+  | some y =>
+    rw [hsp] at hr
+    simp only [Rel0] at hr
+    exact skipAll_spec c f g hf ts c' g' (by rw [hsp, hr]) N hN
+
+/-! ### the mandatory variant -/
+
+theorem run_skip (c : Cons) (filter : σ → Tag → Bool → Nat → Option σ) (st : σ) (N : Nat) (g : G0) :
+    runG0 (skip c filter st N) g =
+      match runG0 (skipOpt c filter st N) g with
+      | .ok ((some (), c', st'), g') => .ok ((c', st'), g')
+      | .ok ((none, _, _), _) => .error .content
+      | .error e => .error e := by
+  unfold skip
+  simp only [runG0_bind]
+  cases runG0 (skipOpt c filter st N) g with
+  | error e => rfl
+  | ok x =>
+    obtain ⟨⟨r, c', st'⟩, g'⟩ := x
+    cases r with
+    | none => rfl
+    | some u => rfl
+
+/-- `skip` (mandatory): as `skip_opt`, with absence turned into a content error -/
+theorem skip_ok_iff (c : Cons) (filter : σ → Tag → Bool → Nat → Option σ) (st : σ) (N : Nat) (g : G0)
+    (c' : Cons) (st' : σ) (g' : G0) :
+    runG0 (skip c filter st N) g = .ok ((c', st'), g') ↔
+      runG0 (skipOpt c filter st N) g = .ok ((some (), c', st'), g') := by
+  rw [run_skip]
+  cases runG0 (skipOpt c filter st N) g with
+  | error e => simp
+  | ok x =>
+    obtain ⟨⟨r, c1, st1⟩, g1⟩ := x
+    cases r with
+    | none => simp
+    | some u => simp
+
+theorem skip_absent (c : Cons) (filter : σ → Tag → Bool → Nat → Option σ) (st : σ) (N : Nat) (hN : 1 ≤ N) (g : G0)
+    (hf : g.frames = []) (c' : Cons) (g' : G0) (h : absentF c g = some (c', g')) :
+    runG0 (skip c filter st N) g = .error .content := by
+  rw [run_skip, (skip_absent_iff c filter st g hf N hN c' st g').mpr ⟨h, rfl⟩]
 
 end Bcder.Props.C10
